@@ -212,6 +212,10 @@ def body(case):
     return out
 
 
+YAML_SENSITIVE = ["yes", "no", "on", "off", "y", "n", "010", "0o10", "1_000", "1e3", "12:30:00", "~", "null", "Null",
+                  "2001-12-14", "0x1F", ".inf", "+1", "1.", "=", "<<"]
+
+
 def gen_text(r):
     """A schema as TEXT (YAML or JSON): every parse of the same text creates fresh strings."""
     d = G.hostile_doc(r, 3)
@@ -223,17 +227,23 @@ def gen_text(r):
         if r.coin(50):
             parts.append(Part(r.choice(["map", "list", "mol"]), label=r.choice(["L", "lbl"])))
         rules.append(rl.replace(path=PathT(parts)))
+    if r.coin(40):
+        # scalars whose reading differs between YAML versions / resolvers (they must read the same way every time)
+        vals = [r.choice(YAML_SENSITIVE) for _ in range(r.between(1, 4))]
+        rules.append(RuleT(PathT([Prim(r.choice(["a", "b", 0]))]), Leaf("value", None, r.choice(["in_", "not_in"]), (), {"value": vals})))
     sp = SP.Spelling(r)
     sp.force_names = True
     spec = {"rules": [SP.rule_spec(rl, sp) for rl in rules]}
-    return spec, r.choice(["yaml", "yaml-file", "json"]), d
+    # between the two parses, another text is parsed (a parse must not depend on what was parsed before it)
+    between = r.choice([None, None, "%YAML 1.1\n---\n", "%YAML 1.2\n---\n", "other"])
+    return spec, r.choice(["yaml", "yaml-file", "json"]), d, between
 
 
 def body_text(case):
     import io, json, os, tempfile
     from ruamel.yaml import YAML
 
-    spec, how, doc = case
+    spec, how, doc, between = case
     out = Outcome()
     ns = build.ns()
     out.nontrivial = any(isinstance(p, dict) and "label" in p for rl in spec["rules"] for p in rl["path"])
@@ -271,6 +281,22 @@ def body_text(case):
 
     try:
         a = parse_once()
+    except Exception as e:
+        out.exc("parse-text", e)
+        return out
+    if between is not None:
+        out.label(f"between:{between.split(chr(10))[0]}")
+        try:
+            with warnings.catch_warnings():
+                warnings.simplefilter("ignore")
+                if between == "other":
+                    ns.s.Schema.from_yaml("rules:\n- path: [yes, 010]\n  condition: {value.in: [on, 1_0, 0o7]}\n")
+                else:
+                    yt = text if how != "json" else "rules: []\n"
+                    ns.s.Schema.from_yaml(between + yt)
+        except Exception:
+            out.label("between-parse-refused")
+    try:
         b = parse_once()
     except Exception as e:
         out.exc("parse-text", e)
